@@ -30,8 +30,21 @@ def adversarial(rng, prog, opts=None):
             names[2] = "server"
     if rng.random() < opts.get("p_samepkg", 0.3):
         names[1] = names[0]                 # two packages with the same name, different directories
+    # the last element of a package's directory need not be its package name: name + digit (which is what Wire's
+    # disambiguation of a second package of that name produces), a prefixed or dotted form, or another package's name
+    dirs = list(names[:2])
+    r = rng.random()
+    if r < 0.3:
+        k = rng.randrange(2)
+        dirs[k] = names[k] + rng.choice(["2", "2", "3"])
+    elif r < 0.4:
+        dirs = [names[0] + "2", names[1] + "3"]
+    elif r < 0.5:
+        dirs[rng.randrange(2)] = rng.choice(["go-" + names[0], names[1] + ".v1", "v2"])
+    elif r < 0.55 and names[0] != names[1]:
+        dirs = [names[1], names[0]]           # each lives in a directory called like the other
     for k, lp in enumerate(["liba", "libb"]):
-        prog.pkgmap[lp] = {"dir": "d%d/%s" % (k, names[k]), "name": names[k]}
+        prog.pkgmap[lp] = {"dir": "d%d/%s" % (k, dirs[k]), "name": names[k]}
     if rng.random() < 0.5:
         prog.pkgmap["app"] = {"dir": "cmd/" + names[2], "name": names[2]}
     quals = {prog.qual(p) for p in prog.pkgs} | {"wire", "fmt", "wtrace"}
